@@ -17,6 +17,30 @@ MAGS = [1.0, 1e-3, 1e-6]
 CLASSES = ["currents", "currents_t", "epsilon", "options", "options_reused", "terminal", "seed", "ashape", "polygon", "device"]
 
 
+def _missing(mod):
+    import importlib.util
+    try:
+        return importlib.util.find_spec(mod) is None
+    except (ImportError, ValueError):
+        return True
+
+
+# inconsistent / unusable solver options.  `mag` scales the first two; the last four are ill-posed only where the
+# optional back end is not installed (they are dropped from the matrix where it is)
+BAD_OPTIONS = [lambda mag: dict(dt_init=0.1 * (1 + mag), dt_max=0.1), lambda mag: dict(terminal_psi=1.0 + mag),
+               lambda mag: dict(adaptive_time_step_multiplier=1.0), lambda mag: dict(screening_step_drag=0.0),
+               lambda mag: dict(screening_tolerance=0.0), lambda mag: dict(sparse_solver="no-such-solver"),
+               lambda mag: dict(screening_step_size=0.0), lambda mag: dict(screening_step_drag=1.5),
+               lambda mag: dict(adaptive_time_step_multiplier=0.0),
+               lambda mag: dict(terminal_psi=-1.5), lambda mag: dict(terminal_psi=0.8 + 0.8j),
+               lambda mag: dict(screening_tolerance=-1e-3), lambda mag: dict(screening_step_size=-0.1),
+               lambda mag: dict(adaptive_time_step_multiplier=-0.25),
+               lambda mag: dict(sparse_solver="cupy"),                       # needs gpu=True: two options that contradict each other
+               lambda mag: dict(gpu=True), lambda mag: dict(sparse_solver="umfpack"), lambda mag: dict(sparse_solver="pardiso"),
+               lambda mag: dict(sparse_solver="cupy", gpu=True)]
+ENV_DEPENDENT = {15: "cupy", 16: "scikits.umfpack", 17: "pypardiso", 18: "cupy"}
+
+
 def matrix(ctx):
     out = []
     devs = ["bar", "barhole", "tee"]
@@ -24,12 +48,14 @@ def matrix(ctx):
         for d in devs:
             for mag in MAGS:
                 for outm in ("temp", "path"):
-                    variants = {"options": 9, "options_reused": 9, "polygon": 9, "device": 4, "epsilon": 3, "currents_t": 2, "terminal": 8,
+                    variants = {"options": len(BAD_OPTIONS), "options_reused": len(BAD_OPTIONS), "polygon": 9, "device": 8, "epsilon": 3, "currents_t": 2, "terminal": 8,
                                 "ashape": 16}.get(cls, 1)
                     for v in range(variants):
                         if cls in ("options", "options_reused", "polygon", "device", "terminal", "seed", "ashape") and mag != 1.0 \
                                 and not (cls in ("options", "options_reused") and v in (0, 1)) and not (cls == "polygon" and v >= 3):
                             continue
+                        if cls in ("options", "options_reused") and v in ENV_DEPENDENT and not _missing(ENV_DEPENDENT[v]):
+                            continue            # that back end is installed here: the options are usable
                         out.append(dict(cls=cls, dev=d, mag=mag, out=outm, variant=v))
     # well-posed controls: the same pipeline must NOT reject them (and then files do appear)
     for d in devs:
@@ -118,9 +144,7 @@ def illposed_run(tdgl, p, base_tmp=None):
                         return 1.0 + mag
                     solve_kw["disorder_epsilon"] = eps_t
             elif cls in ("options", "options_reused"):
-                bad = [dict(dt_init=0.1 * (1 + mag), dt_max=0.1), dict(terminal_psi=1.0 + mag), dict(adaptive_time_step_multiplier=1.0),
-                       dict(screening_step_drag=0.0), dict(screening_tolerance=0.0), dict(sparse_solver="no-such-solver"),
-                       dict(screening_step_size=0.0), dict(screening_step_drag=1.5), dict(adaptive_time_step_multiplier=0.0)][v]
+                bad = BAD_OPTIONS[v](mag)
                 if cls == "options":
                     kw.update(bad)
                 else:
@@ -212,8 +236,21 @@ def illposed_run(tdgl, p, base_tmp=None):
                     tdgl.Device("d", layer=layer, film=film, holes=[tdgl.Polygon("h", points=circle(0.3)), tdgl.Polygon("h", points=circle(0.3, center=(1, 0)))])
                 elif v == 2:
                     tdgl.Device("d", layer=layer, film=film, probe_points=[(0, 0), (10, 10)])
-                else:
+                elif v == 3:
                     tdgl.Device("d", layer=layer, film=tdgl.Polygon(points=box(5, 3, points=48)))   # unnamed film
+                elif v == 4:
+                    tdgl.Device("d", layer=layer, film=film, probe_points=[(0.0, 0.0, 0.0), (1.0, 0.0, 0.0)])     # (n, 3) probe points
+                elif v == 5:
+                    tdgl.Device("d", layer=layer, film=film, terminals=[tdgl.Polygon(points=box(0.1, 3, center=(-2.5, 0))),
+                                                                         tdgl.Polygon("b", points=box(0.1, 3, center=(2.5, 0)))])   # unnamed terminal
+                else:
+                    # a device that was never meshed (v == 6), or whose mesh was dropped again (v == 7), handed to the solver
+                    d2 = tdgl.Device("d", layer=layer, film=film, terminals=[tdgl.Polygon("source", points=box(0.1, 3, center=(-2.5, 0))),
+                                                                              tdgl.Polygon("drain", points=box(0.1, 3, center=(2.5, 0)))])
+                    if v == 7:
+                        d2.make_mesh(max_edge_length=0.8)
+                        d2.mesh = None
+                    tdgl.solve(d2, tdgl.SolverOptions(**kw), applied_vector_potential=0.1, terminal_currents={"source": 1.0, "drain": -1.0})
                 raise RuntimeError("device accepted")
             opts = tdgl.SolverOptions(**kw)
             if cls == "options_reused":
